@@ -398,7 +398,7 @@ theorem no_false_alarm_gen (evs : List Ev) : ∀ (s : TState), WF s →
       · have hs : step s .fire = (s, none) := by simp [step, fire, hdue]
         exact same s hs rfl rfl rfl rfl
 
-/-! ### keep-alive zero (v4) -/
+/-! ### keep-alive zero -/
 
 theorem step_lab_not_due (s : TState) (e : Ev) (l : Lab) (hnd : due s = false)
     (hl : (step s e).2 = some l) : l = .resp := by
@@ -420,16 +420,15 @@ theorem step_lab_not_due (s : TState) (e : Ev) (l : Lab) (hnd : due s = false)
     · simp [step, hc] at hl
     · simp [step, hc] at hl
 
-theorem zero_v4_gen (evs : List Ev) : ∀ s : TState, s.ver = .v4 → s.keepAlive = 0 →
+theorem zero_gen (evs : List Ev) : ∀ s : TState, s.keepAlive = 0 →
     trace s evs = (trace s evs).filter (fun x => x.2 == .resp) := by
   induction evs with
-  | nil => intro s _ _; simp [trace]
+  | nil => intro s _; simp [trace]
   | cons e es ih =>
-    intro s hv hk
-    have hv' : (step s e).1.ver = .v4 := by rw [step_ver]; exact hv
+    intro s hk
     have hk' : (step s e).1.keepAlive = 0 := by rw [step_keepAlive]; exact hk
-    have hnd : due s = false := by simp [due, armed, hv, hk]
-    have := ih _ hv' hk'
+    have hnd : due s = false := by simp [due, armed, hk]
+    have := ih _ hk'
     cases hl : (step s e).2 with
     | none => simp only [trace, hl]; exact this
     | some l =>
@@ -530,6 +529,7 @@ inductive StepKind {σ} (ops : StateOps σ) (s s' : LState σ) : Prop where
   | quiet (ht : s'.taken = s.taken) (hp : s'.net ≠ none → s'.pending = s.pending)
   /-- head of `pending` handed over -/
   | fromPending (q : Req) (ps : List Req) (hq : s.pending = q :: ps)
+      (hr : isReplay q = true ∨ gateOpen ops s.st = true)
       (ht : s'.taken = s.taken ++ [(true, q)]) (hp : s'.net ≠ none → s'.pending = ps)
   /-- head of the channel handed over: only with `pending` empty and the flow-control gate open -/
   | fromChannel (q : Req) (cs : List Req) (hq : s.channel = q :: cs) (he : s.pending = [])
@@ -563,10 +563,15 @@ theorem poll_kind {σ} (ops : StateOps σ) (s : LState σ) (b : Branch) (r : LSt
         · rename_i hsel
           split at h
           · rename_i q ps hp
+            have hr : isReplay q = true ∨ gateOpen ops s.st = true := by
+              simp [selectEnabled, hp] at hsel
+              cases hq : isReplay q
+              · exact Or.inr (hsel hq)
+              · exact Or.inl rfl
             repeat' split at h
             all_goals first
               | (cases h; done)
-              | (cases h; exact .fromPending q ps hp (by simp [failWith, loopClean]) (by simp [failWith, loopClean]))
+              | (cases h; exact .fromPending q ps hp hr (by simp [failWith, loopClean]) (by simp [failWith, loopClean]))
           · rename_i hp
             have hg : gateOpen ops s.st = true := by
               simp [selectEnabled, hp] at hsel; exact hsel
@@ -626,7 +631,7 @@ theorem progress_step {σ} (ops : StateOps σ) (t0 : List (Bool × Req)) (P : Li
   cases k with
   | quiet ht hp =>
     exact ⟨m, chans, by rw [ht, h1], h2, fun hn => by rw [hp hn, hpd]⟩
-  | fromPending q ps hq ht hp =>
+  | fromPending q ps hq _ ht hp =>
     have hd : P.drop m = q :: ps := by rw [← hpd, hq]
     have hm : m < P.length := by
       refine Nat.lt_of_not_le (fun hc => ?_)
